@@ -97,8 +97,10 @@ pub fn parse_static_ratio(embedded: bool, input: TokenStream) -> TokenStream {
 fn parse_ratio_with_error(input: TokenStream) -> Result<(IBig, UBig, bool), ParseError> {
     let mut num_val: Option<_> = None;
     let mut num_neg = false;
+    let mut num_signed = false;
     let mut den_val: Option<_> = None;
     let mut den_neg = false;
+    let mut den_signed = false;
     let mut den_marked = false;
     let mut relaxed = false;
     let mut base_marked = false;
@@ -143,12 +145,21 @@ fn parse_ratio_with_error(input: TokenStream) -> Result<(IBig, UBig, bool), Pars
                         return Err(ParseError::InvalidDigit);
                     }
                 } else if num_val.is_none() {
+                    // only one sign is allowed
+                    if num_signed {
+                        return Err(ParseError::InvalidDigit);
+                    }
+                    num_signed = true;
                     if punct.as_char() == '-' {
                         num_neg = true;
                     } else if punct.as_char() != '+' {
                         return Err(ParseError::InvalidDigit);
                     }
                 } else if den_val.is_none() {
+                    if den_signed {
+                        return Err(ParseError::InvalidDigit);
+                    }
+                    den_signed = true;
                     if punct.as_char() == '-' {
                         den_neg = true;
                     } else if punct.as_char() != '+' {
